@@ -60,8 +60,14 @@ func (slf *SyncPrioritySlice[V]) Append(v V, p int) {
 
 // Appends 添加元素
 func (slf *SyncPrioritySlice[V]) Appends(priority int, vs ...V) {
+	slf.rw.Lock()
+	defer slf.rw.Unlock()
 	for _, v := range vs {
-		slf.Append(v, priority)
+		slf.items = append(slf.items, &priorityItem[V]{
+			v: v,
+			p: priority,
+		})
+		slf.sort()
 	}
 	slf.sort()
 }
